@@ -49,8 +49,16 @@ func (d *decisionRegion) collect() {
 		}
 		for i := p.i; i < len(p.b.Instrs); i++ {
 			in := p.b.Instrs[i]
+			if _, isRet := in.(*ssa.Return); isRet && inHelper[in.Parent()] {
+				return // back to the caller, whose walk continues after the call
+			}
 			if d.classify(in) != "" {
 				return
+			}
+			if h := stmtHelper(in); h != nil && !inHelper[h] {
+				// a private helper called for its effect: its branches belong to the region
+				inHelper[h] = true
+				walk(entryPos(h))
 			}
 			if iff, ok := in.(*ssa.If); ok {
 				if h := boolHelper(iff.Cond); h != nil {
@@ -253,6 +261,7 @@ func (d *decisionRegion) eval(assign []bool) string {
 	p := d.start
 	phiVal := map[*ssa.Phi]ssa.Value{}
 	var prev *ssa.BasicBlock
+	var stack []ipos
 	steps := 0
 	for {
 		steps++
@@ -271,10 +280,20 @@ func (d *decisionRegion) eval(assign []bool) string {
 			}
 		}
 		var next *ssa.BasicBlock
+		jumped := false
 		for i := p.i; i < len(p.b.Instrs); i++ {
 			in := p.b.Instrs[i]
+			if _, isRet := in.(*ssa.Return); isRet && len(stack) > 0 {
+				p, stack, prev, jumped = stack[len(stack)-1], stack[:len(stack)-1], nil, true
+				break
+			}
 			if c := d.classify(in); c != "" {
 				return c
+			}
+			if h := stmtHelper(in); h != nil && len(stack) < unitDepth {
+				stack = append(stack, posAfter(in))
+				p, prev, jumped = entryPos(h), nil, true
+				break
 			}
 			if iff, ok := in.(*ssa.If); ok {
 				val, ok := d.condValue(iff.Cond, assign, phiVal, 0)
@@ -287,6 +306,9 @@ func (d *decisionRegion) eval(assign []bool) string {
 					next = p.b.Succs[1]
 				}
 			}
+		}
+		if jumped {
+			continue
 		}
 		if next == nil {
 			if len(p.b.Succs) == 1 {
@@ -363,4 +385,13 @@ func returnResults(in ssa.Instruction) []ssa.Value {
 		return ret.Results
 	}
 	return nil
+}
+
+// stmtHelper: a private helper without results called as a statement (its body is part of the caller's decision).
+func stmtHelper(in ssa.Instruction) *ssa.Function {
+	h := helperCallee(in)
+	if h == nil || h.Signature.Results().Len() != 0 {
+		return nil
+	}
+	return h
 }
